@@ -12,35 +12,53 @@ def plan_class(m):
 
 
 def call_ctor(m):
-    """CALLCTOR: the method of Plan that constructs the Call node (today Plan._call)."""
+    """CALLCTOR: the frame-explicit twin of the public Plan.call (today Plan._call): the method of Plan, other than `call`, that
+    takes (*args, **kwargs) of a call and from which the construction of a Call node is reached."""
     plan = plan_class(m)
     callc = m.one_class("Call", "CALL")  # public API (uberjob.graph.Call)
-    found = [f for f in plan.methods.values()
-             if any(any(o[0] == "class" and o[1] is callc for o in m.callee_origins(f, c)) for c in f.own_calls())]
+
+    def builds_call(f):
+        for g in [f] + list(m.reachable([f], kinds=("call",))):
+            if any(any(o[0] == "class" and o[1] is callc for o in m.callee_origins(g, c)) for c in g.own_calls()):
+                return True
+        return False
+    found = [f for n, f in plan.methods.items() if n != "call" and f.vararg and f.kwarg and builds_call(f)]
     if len(found) != 1:
-        raise AnalysisError(f"role CALLCTOR: expected one method of Plan constructing Call(...), found {[f.qualname for f in found]}")
+        raise AnalysisError(f"role CALLCTOR: expected one frame-explicit call constructor on Plan, found {[f.qualname for f in found]}")
     return found[0]
 
 
 def frame_gather(m):
-    """The frame-explicit gather (today Plan._gather): the method of Plan that the public Plan.gather hands the captured frame to."""
+    """The frame-explicit twin of the public Plan.gather (today Plan._gather): the method of Plan, other than the public
+    gather / unpack / call, with the two parameters (frame, value) from which the construction of a Call node is reached.
+    -> Func or None (an implementation need not have one)."""
     plan = plan_class(m)
-    g = plan.methods.get("gather")
-    if g is None:
-        raise AnalysisError("role GATHER: Plan.gather not found")
-    found = set()
-    for c in g.own_calls():
-        for t in m.callee_funcs(g, c):
-            if t.cls is plan and t is not g:
-                found.add(t)
-    if len(found) != 1:
-        raise AnalysisError(f"role GATHER: expected Plan.gather to delegate to one method of Plan, found {sorted(f.qualname for f in found)}")
-    return next(iter(found))
+    callc = m.one_class("Call", "CALL")
+
+    def builds_call(f):
+        for g in [f] + list(m.reachable([f], kinds=("call",))):
+            if any(any(o[0] == "class" and o[1] is callc for o in m.callee_origins(g, c)) for c in g.own_calls()):
+                return True
+        return False
+    found = [f for n, f in plan.methods.items() if n not in ("gather", "unpack", "call") and not f.vararg and not f.kwarg
+             and len(f.pos_params) == 3 and builds_call(f)]
+    if len(found) > 1:
+        # helpers of the recursion share the signature: the twin is the one the public gather hands over to
+        g = plan.methods.get("gather")
+        direct = [f for f in found if g is not None and any(f in m.callee_funcs(g, c) for c in g.own_calls())]
+        if len(direct) == 1:
+            return direct[0]
+        outside = [f for f in found if any(c_.cls is not plan for c_, _call in m.callers.get(f, ()))]
+        if len(outside) == 1:
+            return outside[0]
+        raise AnalysisError(f"role GATHER: several frame-explicit gather methods on Plan: {[f.qualname for f in found]}")
+    return found[0] if found else None
 
 
 def gather_names(m):
     """Attribute names under which the output specification may be gathered: the public gather and the frame-explicit one."""
-    return {"gather", frame_gather(m).name}
+    fg = frame_gather(m)
+    return {"gather"} | ({fg.name} if fg is not None else set())
 
 
 def observer_api(m):
